@@ -5,7 +5,7 @@ ENTRY = {'coq_dir': 'C08',
  'model_files': ['Glue'],
  'harness': 'c08',
  'cases': {'quick': 1500, 'thorough': 10000},
- 'consts': [],
+ 'consts': ['DEFAULT_CHANNEL_SIZE'],
  'nontrivial_min_trace': 40,
  'rule': 'online-generated histories against a real TransportService (cfg(verif) wrapper) with real ConnectionHandles whose command receivers the '
          'harness owns: 1-3 peers, <= 2 overlapping connections per peer (10 % of the cases allow a third, 8 % inject answers for unknown ids / '
@@ -14,7 +14,16 @@ ENTRY = {'coq_dir': 'C08',
          'thorough); plus cases/25 real-time cases (T = 100/300/500 ms on a 200 ms grid) with keep-alive downgrades. After every op: emitted '
          "TransportEvents, open_substream result, commands seen on each connection's channel, Active->Inactive flips, and a dump (per peer "
          'primary/secondary id and active flag, next substream id, tracked keys, number of armed sleeps, per channel whether a strong sender exists) '
-         'are compared with the extracted model; non-trivial = trace of >= 40 numbers; distinct = distinct (case, trace) pairs',
+         'are compared with the extracted model; plus cases/3 report-level cases: the REAL ProtocolSet (one per connection) reporting substream '
+         'outcomes / established / closed into SMALL protocol channels (capacity 1-4) that the harness drains only when the case says so, the report '
+         "futures running as runtime tasks (polled when woken, as the connection loop's await is); the result of every report (completed / waiting / "
+         'error), the exact events each protocol receives, which waiting reports complete, and the queue lengths are compared with the model; plus '
+         'cases/5 composed cases: real ProtocolSets (one per connection) feed ONE real TransportService through its real event channel built with '
+         'capacity 1 (reports wait for room as runtime tasks, the service consumes at most one event per poll, open_substream commands are read off '
+         'the real ProtocolSet); the trace is a report-level case+trace and a service-level case+trace whose inputs are the delivered events, and '
+         "must satisfy both oracles; report-level cases may kill a protocol's receiver (known class 1 = F-C07b), open_substream may meet a full "
+         'command channel (ChannelClogged), the id counter may start a few below 2^64 and wrap; non-trivial = trace of >= 40 numbers; distinct = '
+         'distinct (case, trace) pairs',
  'trusted_base': ["environment assumption of the theorems: connection ids are fresh and at most two connections per peer are open at a time (C06's "
                   'guarantee), closed/substream notifications refer to an open connection (per-connection FIFO of the connection task), answers '
                   'refer to an open request',
@@ -28,13 +37,22 @@ ENTRY = {'coq_dir': 'C08',
                'increasing for every history, an OpenSubstream command is produced only by an accepted open, carries its id and targets the oldest '
                'open connection; an accepted open is in flight until a step hands the protocol an answer with its id or reports its connection '
                'closed, no id is answered twice, and under the stated environment hypothesis (the open is no longer in flight at the end, i.e. the '
-               'connection task answered its command) it is answered exactly once or its connection was closed; a counterexample shows the '
-               'two-per-peer assumption is needed. The model is tied to transport_service.rs / connection.rs by a per-operation differential run '
-               'with state dumps.',
+               'connection task answered its command) it is answered exactly once or its connection was closed; the reporting side of ProtocolSet '
+               '(bounded FIFO channel per protocol, all four report functions wait for room) neither drops, duplicates nor reorders an event for '
+               'every history and capacity and delivers every started report after finitely many drains for every capacity >= 1 (incl. '
+               'DEFAULT_CHANNEL_SIZE); once the answer event reaches the service after the open, the open is resolved: answered exactly once or its '
+               'connection closed; the substream-id counter is modelled modulo 2^64 (usize): ids are unique in every history that draws at most 2^64 '
+               'of them, and strictly increasing while the counter does not wrap (the at-most-once theorems carry that no-wrap hypothesis); '
+               'ChannelClogged (full command channel) draws an id, puts nothing in flight and issues no command; with a dead protocol '
+               'report_connection_established fails after having told exactly the live protocols polled before it whose channel had room, and no '
+               'closed event is ever produced for that connection (known class 1, F-C07b); a counterexample shows the two-per-peer assumption is '
+               'needed. The model is tied to transport_service.rs / connection.rs by a per-operation differential run with state dumps.',
  'level_note': 'Trusted: Coq kernel, extraction, harness and hooks, the environment assumption (discharged by C06 for the connection count), the '
                'atomic-handler abstraction. That the connection task answers every OpenSubstream command (tcp/connection.rs) is an explicit '
-               "hypothesis of C08_open_answered, not proved here (C07's side). ChannelClogged (full command channel) and usize wrap of the id "
-               'counter are not modelled.',
+               "hypothesis of C08_open_answered, not proved here (C07's side). The poll order of report_connection_established is the iteration "
+               'order of a HashMap: the harness reads it off the same table and writes it into the case (stored cases are re-masked per run). The '
+               'composed stream uses capacity 1 so that every consumed event is observable on its own; larger capacities are covered by the '
+               'report-level stream only.',
  'assumptions': ['at most two open connections per peer, fresh connection ids (C06)',
                  'per-connection FIFO: no substream/closed notification for a connection before its established or after its closed notification',
                  'HashMap / FuturesUnordered iteration order is not observable (dumps and downgrade lists are sorted)']}
